@@ -83,7 +83,7 @@ def main(tier, t0):
         "bound_completed": f"N <= {sizes[-1]} classes, <= 2 supers per class",
         "per_n": per_n,
         "distinct_outcomes": sorted(outcomes),
-        "samples": samples,
+        "samples": samples or ["(no case completed: the engine was brought down, see violations)"],
     }
     assumptions = [
         "a Result::Err answer is accepted exactly when an unresolvable or non-class super is "
